@@ -40,6 +40,29 @@ func asMat(v w.Val) spatial.Matrix3 {
 	return m
 }
 func quatVal(q spatial.Quat) w.Val { return w.L(w.F(q.W), w.F(q.X), w.F(q.Y), w.F(q.Z)) }
+func asI32s(v w.Val) []int32 {
+	l := w.AsInts(v)
+	r := make([]int32, len(l))
+	for i, x := range l {
+		r[i] = int32(x)
+	}
+	return r
+}
+func i32sVal(l []int32) w.Val {
+	r := make(w.List, len(l))
+	for i, x := range l {
+		r[i] = w.I(int64(x))
+	}
+	return r
+}
+func asF32s(v w.Val) []float32 {
+	l := w.AsList(v)
+	r := make([]float32, len(l))
+	for i, x := range l {
+		r[i] = float32(w.AsFlt(x))
+	}
+	return r
+}
 func asFlts(v w.Val) []float64 {
 	l := w.AsList(v)
 	r := make([]float64, len(l))
@@ -83,6 +106,55 @@ func fns() []*run.Fn {
 		{Name: "Intersect/string", Invoke: func(a []w.Val) w.Val { return strsVal(common.Intersect(w.AsStrs(a[0]), w.AsStrs(a[1]))) }},
 		{Name: "Include/int64", Invoke: func(a []w.Val) w.Val { return w.B(common.Include(w.AsInts(a[0]), w.AsInt(a[1]))) }},
 		{Name: "Include/string", Invoke: func(a []w.Val) w.Val { return w.B(common.Include(w.AsStrs(a[0]), w.AsStr(a[1]))) }},
+		{Name: "Union/int32", Invoke: func(a []w.Val) w.Val { return i32sVal(common.Union(asI32s(a[0]), asI32s(a[1]))) }},
+		{Name: "Unique/int32", Invoke: func(a []w.Val) w.Val { return i32sVal(common.Unique(asI32s(a[0]))) }},
+		{Name: "Difference/int32", Invoke: func(a []w.Val) w.Val { return i32sVal(common.Difference(asI32s(a[0]), asI32s(a[1]))) }},
+		{Name: "Intersect/int32", Invoke: func(a []w.Val) w.Val { return i32sVal(common.Intersect(asI32s(a[0]), asI32s(a[1]))) }},
+		{Name: "Include/int32", Invoke: func(a []w.Val) w.Val { return w.B(common.Include(asI32s(a[0]), int32(w.AsInt(a[1])))) }},
+		{Name: "Union/float64", Invoke: func(a []w.Val) w.Val { return fltsVal(common.Union(asFlts(a[0]), asFlts(a[1]))) }},
+		{Name: "Unique/float64", Invoke: func(a []w.Val) w.Val { return fltsVal(common.Unique(asFlts(a[0]))) }},
+		{Name: "Difference/float64", Invoke: func(a []w.Val) w.Val { return fltsVal(common.Difference(asFlts(a[0]), asFlts(a[1]))) }},
+		{Name: "Intersect/float64", Invoke: func(a []w.Val) w.Val { return fltsVal(common.Intersect(asFlts(a[0]), asFlts(a[1]))) }},
+		{Name: "Include/float64", Invoke: func(a []w.Val) w.Val { return w.B(common.Include(asFlts(a[0]), w.AsFlt(a[1]))) }},
+		{Name: "Max/int", Invoke: func(a []w.Val) w.Val {
+			l := w.AsInts(a[0])
+			r := make([]int, len(l))
+			for i, x := range l {
+				r[i] = int(x)
+			}
+			v, err := common.Max(r)
+			return w.WithErr(w.I(int64(v)), err)
+		}},
+		{Name: "Min/int", Invoke: func(a []w.Val) w.Val {
+			l := w.AsInts(a[0])
+			r := make([]int, len(l))
+			for i, x := range l {
+				r[i] = int(x)
+			}
+			v, err := common.Min(r)
+			return w.WithErr(w.I(int64(v)), err)
+		}},
+		{Name: "Max/int32", Invoke: func(a []w.Val) w.Val {
+			v, err := common.Max(asI32s(a[0]))
+			return w.WithErr(w.I(int64(v)), err)
+		}},
+		{Name: "Min/int32", Invoke: func(a []w.Val) w.Val {
+			v, err := common.Min(asI32s(a[0]))
+			return w.WithErr(w.I(int64(v)), err)
+		}},
+		{Name: "Max/float32", Invoke: func(a []w.Val) w.Val {
+			v, err := common.Max(asF32s(a[0]))
+			return w.WithErr(w.F(float64(v)), err)
+		}},
+		{Name: "Min/float32", Invoke: func(a []w.Val) w.Val {
+			v, err := common.Min(asF32s(a[0]))
+			return w.WithErr(w.F(float64(v)), err)
+		}},
+		{Name: "ScalarOps", Invoke: func(a []w.Val) w.Val {
+			x, y, tol, ang := w.AsFlt(a[0]), w.AsFlt(a[1]), w.AsFlt(a[2]), w.AsFlt(a[3])
+			return w.L(w.B(common.AlmostEqual(x, y, tol)), w.B(common.AlmostEqual(y, x, tol)), w.F(common.DegreeToRadian(ang)),
+				w.F(common.RadianToDegree(ang)), w.F(common.RadianToDegree(common.DegreeToRadian(ang))))
+		}},
 		{Name: "Max/int64", Invoke: func(a []w.Val) w.Val {
 			v, err := common.Max(w.AsInts(a[0]))
 			return w.WithErr(w.I(v), err)
@@ -178,8 +250,12 @@ func genInts(g *Gen, n int, span int64) []int64 {
 }
 func genStrs(g *Gen, n int, span int) []string {
 	l := make([]string, n)
+	many := n > 12 && g.Chance(0.7)
 	for i := range l {
 		l[i] = words[g.Intn(span)]
+		if many {
+			l[i] = Tag("%d/%d/%d/%d", 10+g.Intn(4), g.Intn(3), g.Intn(40), g.Intn(3))
+		}
 	}
 	return l
 }
@@ -191,6 +267,11 @@ func listLen(g *Gen) int {
 		return 1
 	case 2:
 		return 2 + g.Intn(3)
+	case 3:
+		if g.Intn(4) == 0 {
+			return 20 + g.Intn(200) // many keys: several map buckets / growth
+		}
+		return 9 + g.Intn(30)
 	}
 	return g.Intn(14)
 }
@@ -198,6 +279,9 @@ func listLen(g *Gen) int {
 // pairs of lists: kind 0 independent (overlapping by small span), 1 disjoint, 2 equal, 3 permuted copy, 4 sub-list, 5 one empty
 func intPair(g *Gen) ([]int64, []int64, string) {
 	span := int64(1 + g.Intn(8))
+	if g.Intn(3) == 0 {
+		span = int64(10 + g.Intn(300))
+	}
 	a := genInts(g, listLen(g), span)
 	switch g.Intn(7) {
 	case 0:
@@ -255,6 +339,11 @@ func strPair(g *Gen) ([]string, []string, string) {
 			return a, []string{}, "second-empty"
 		}
 		return []string{}, a, "first-empty"
+	case 4:
+		if len(a) > 0 {
+			return a, append([]string{}, a[:g.Intn(len(a))]...), "prefix"
+		}
+		return a, []string{}, "prefix"
 	}
 	return a, genStrs(g, listLen(g), span), "overlapping"
 }
@@ -419,56 +508,118 @@ func genMat(g *Gen, small bool) spatial.Matrix3 {
 	return m
 }
 
-// pairs of vectors for the rotation: generic, parallel, opposite (exactly), opposite along z (second fallback axis), nearly opposite, zero
+// fit keeps a generated component inside the checker's "moderate" range (zero, or 2^-98 <= |x| <= 2^98)
+func fit(x float64) float64 {
+	const lo, hi = 0x1p-98, 0x1p98
+	if x == 0 || math.IsNaN(x) {
+		return 0
+	}
+	if math.Abs(x) < lo {
+		return math.Copysign(lo, x)
+	}
+	if math.Abs(x) > hi {
+		return math.Copysign(hi, x)
+	}
+	return x
+}
+func fitV(v spatial.Vector3) spatial.Vector3 { return spatial.Vector3{X: fit(v.X), Y: fit(v.Y), Z: fit(v.Z)} }
+
+// pow2 draws a power of two: mostly 1, otherwise 2^k with |k| <= 70 (the magnitudes the "moderate" assumption speaks about)
+func pow2(g *Gen) (float64, string) {
+	if g.Intn(10) < 6 {
+		return 1, ""
+	}
+	k := g.Intn(141) - 70
+	if g.Intn(4) == 0 {
+		k = int(g.Pick(70, -70, 69, -69, 52, -52))
+	}
+	return math.Ldexp(1, k), ",scaled"
+}
+
+// mixed gives every component its own power of two (axis-dominated vectors)
+func mixed(g *Gen, v spatial.Vector3) spatial.Vector3 {
+	return fitV(spatial.Vector3{X: math.Ldexp(v.X, g.Intn(81)-40), Y: math.Ldexp(v.Y, g.Intn(81)-40), Z: math.Ldexp(v.Z, g.Intn(81)-40)})
+}
+
+// turned returns sgn*(a cos(theta)) + d sin(theta) with d perpendicular to a and |d| = |a|: a vector at angle theta from sgn*a
+func turned(g *Gen, a spatial.Vector3, sgn, theta float64) spatial.Vector3 {
+	r, _ := genVec(g)
+	d := a.Cross(r)
+	if d.Norm() < 1e-6*a.Norm()*(r.Norm()+1e-300) || isZero(d) {
+		d = a.Cross(spatial.Vector3{X: 0.3, Y: -1.1, Z: 0.7})
+		if isZero(d) {
+			d = a.Cross(spatial.Vector3{X: 1})
+		}
+	}
+	d = d.Scale(a.Norm() / d.Norm())
+	return a.Scale(sgn * math.Cos(theta)).Add(d.Scale(math.Sin(theta)))
+}
+
+// angle whose 1+cos (for nearly opposite) or 1-cos (nearly parallel) is theta^2/2: log-uniform 1e-12..1e-1, or aimed at a threshold
+func smallAngle(g *Gen) (float64, string) {
+	if g.Intn(3) > 0 {
+		return math.Pow(10, -1-11*g.R.Float64()), "log-uniform"
+	}
+	// thresholds in 1+cos: Minima = 1e-10 (branch), 2^-32, 2^-19 (class bounds), 1e-6, 2^-16
+	t := g.PickF(1e-10, 1e-10, 1e-10, 0x1p-32, 0x1p-19, 0x1p-19, 1e-6, 0x1p-16, 1e-8, 1e-7)
+	d := g.PickF(1e-2, 1e-4, 1e-6, 1e-9, 0) * (2*g.R.Float64() - 1)
+	return math.Sqrt(2*t) * (1 + d), Tag("at-1+cos=%.0e", t)
+}
+
+// pairs of vectors for the rotation: generic, parallel, nearly parallel, opposite (exactly; each fallback axis), nearly opposite, perpendicular
 func rotPair(g *Gen) (spatial.Vector3, spatial.Vector3, string) {
 	a, _ := genVec(g)
 	for isZero(a) {
 		a, _ = genVec(g)
 	}
-	switch g.Intn(12) {
+	sc, st := pow2(g)
+	sc2, _ := pow2(g)
+	switch g.Intn(14) {
 	case 0:
 		k := float64(g.Pick(1, 2, 4, 8)) / float64(g.Pick(1, 2, 16))
-		return a, a.Scale(k), "parallel"
+		return fitV(a.Scale(sc)), fitV(a.Scale(k * sc2)), "parallel" + st
 	case 1, 2:
 		k := float64(g.Pick(1, 2, 4, 8)) / float64(g.Pick(1, 2, 16))
-		return a, a.Scale(-k), "opposite"
+		return fitV(a.Scale(sc)), fitV(a.Scale(-k * sc2)), "opposite" + st
 	case 3: // along z: unit(a) x e_z = 0, the code must take its second fallback axis
 		z := math.Abs(moderate(g)) + 0.5
 		s := float64(g.Pick(1, -1))
-		return spatial.Vector3{Z: s * z}, spatial.Vector3{Z: -s * z * float64(g.Pick(1, 2, 4))}, "opposite-along-z"
+		return fitV(spatial.Vector3{Z: s * z * sc}), fitV(spatial.Vector3{Z: -s * z * float64(g.Pick(1, 2, 4)) * sc2}), "opposite-along-z" + st
 	case 4: // within 1e-10 of the z axis but not on it
 		z := math.Abs(moderate(g)) + 0.5
 		a = spatial.Vector3{X: z * 1e-12 * float64(g.Pick(1, -1, 3)), Y: z * 1e-12 * float64(g.Pick(0, 1, -2)), Z: z}
-		return a, a.Scale(-2), "opposite-near-z"
+		return fitV(a.Scale(sc)), fitV(a.Scale(-2 * sc)), "opposite-near-z" + st
 	case 5: // along x / y: first fallback axis
 		e := float64(g.Pick(1, -1, 3))
 		if g.Chance(0.5) {
-			return spatial.Vector3{X: e}, spatial.Vector3{X: -2 * e}, "opposite-along-xy"
+			return fitV(spatial.Vector3{X: e * sc}), fitV(spatial.Vector3{X: -2 * e * sc2}), "opposite-along-xy" + st
 		}
-		return spatial.Vector3{Y: e}, spatial.Vector3{Y: -2 * e}, "opposite-along-xy"
-	case 6: // nearly opposite: -a plus a relative perturbation between 1e-9 and 1e-3
-		d, _ := genVec(g)
-		eps := math.Pow(10, -3-6*g.R.Float64())
-		n := a.Norm()
-		dn := d.Norm()
-		if dn == 0 {
-			d, dn = spatial.Vector3{X: 1, Y: 1}, math.Sqrt2
+		return fitV(spatial.Vector3{Y: e * sc}), fitV(spatial.Vector3{Y: -2 * e * sc2}), "opposite-along-xy" + st
+	case 6, 7, 8: // nearly opposite: angle pi - theta
+		th, kind := smallAngle(g)
+		return fitV(a.Scale(sc)), fitV(turned(g, a, -1, th).Scale(sc2)), "near-opposite:" + kind
+	case 9: // nearly parallel: angle theta
+		th, kind := smallAngle(g)
+		return fitV(a.Scale(sc)), fitV(turned(g, a, 1, th).Scale(sc2)), "near-parallel:" + kind
+	case 10:
+		return fitV(a.Scale(sc)), fitV(a.Cross(spatial.Vector3{X: 1, Y: 2, Z: 3}).Scale(sc2)), "perpendicular" + st
+	case 11: // components of very different magnitudes
+		b, _ := genVec(g)
+		a, b = mixed(g, a), mixed(g, b)
+		if isZero(a) || isZero(b) {
+			return spatial.Vector3{X: 1}, spatial.Vector3{Y: 1}, "generic"
 		}
-		return a, a.Scale(-1).Add(d.Scale(eps * n / dn)), "near-opposite"
-	case 7:
-		if g.Chance(0.5) {
-			return spatial.Vector3{}, a, "zero"
-		}
-		return a, spatial.Vector3{}, "zero"
-	case 8:
-		return a, a.Cross(spatial.Vector3{X: 1, Y: 2, Z: 3}), "perpendicular"
+		return a, b, "mixed-magnitude"
 	}
 	b, _ := genVec(g)
-	return a, b, "generic"
+	for isZero(b) {
+		b, _ = genVec(g)
+	}
+	return fitV(a.Scale(sc)), fitV(b.Scale(sc2)), "generic" + st
 }
 
 func init() {
-	Scale["C20"] = 15000
+	Scale["C20"] = 13000
 	Registry["C20"] = func(r *run.Runner, g *Gen, n int) {
 		r.Register(fns()...)
 		MathOracles(r)
@@ -525,7 +676,7 @@ func init() {
 		run1("Max/float64", false, []string{"maxmin-float:fixed"}, fltsVal([]float64{}))
 		run1("Min/float64", false, []string{"maxmin-float:fixed"}, fltsVal([]float64{-1.5, -1.5, 2.5, 2.5}))
 		for i := 0; i < n; i++ {
-			switch k := g.Intn(20); {
+			switch k := g.Intn(22); {
 			case k < 6: // set helpers
 				useStr := g.Chance(0.4)
 				op := []string{"Union", "Difference", "Intersect", "Unique", "Include"}[g.Intn(5)]
@@ -554,18 +705,54 @@ func init() {
 					if hasDup(a) || hasDup(b) {
 						tags = append(tags, "duplicates")
 					}
+					if len(a) > 8 || len(b) > 8 {
+						tags = append(tags, "set:len>8")
+					}
 					triv := len(a) == 0 && len(b) == 0
+					t := g.Int63n(17) - 8
+					if len(a) > 0 && g.Chance(0.5) {
+						t = a[g.Intn(len(a))]
+					}
+					ty := "/int64"
+					var va, vb, vt w.Val = intsVal(a), intsVal(b), w.I(t)
+					switch g.Intn(5) {
+					case 0: // int32 instance: clamp the 64-bit extremes to the 32-bit ones
+						ty = "/int32"
+						c32 := func(l []int64) []int64 {
+							r := make([]int64, len(l))
+							for i, x := range l {
+								switch {
+								case x > math.MaxInt32:
+									x = math.MaxInt32 - x&1
+								case x < math.MinInt32:
+									x = math.MinInt32 + x&1
+								}
+								r[i] = x
+							}
+							return r
+						}
+						va, vb, vt = intsVal(c32(a)), intsVal(c32(b)), w.I(c32([]int64{t})[0])
+					case 1: // float64 instance without NaN: halves, +0 and -0 (one key, two bit patterns)
+						ty = "/float64"
+						cf := func(l []int64) []float64 {
+							r := make([]float64, len(l))
+							for i, x := range l {
+								r[i] = float64(x) / 2
+								if x == 0 && g.Chance(0.5) {
+									r[i] = math.Copysign(0, -1)
+								}
+							}
+							return r
+						}
+						va, vb, vt = fltsVal(cf(a)), fltsVal(cf(b)), w.F(cf([]int64{t})[0])
+					}
 					switch op {
 					case "Unique":
-						run1(op+"/int64", len(a) == 0, tags, intsVal(a))
+						run1(op+ty, len(a) == 0, tags, va)
 					case "Include":
-						t := g.Int63n(17) - 8
-						if len(a) > 0 && g.Chance(0.5) {
-							t = a[g.Intn(len(a))]
-						}
-						run1(op+"/int64", len(a) == 0, tags, intsVal(a), w.I(t))
+						run1(op+ty, len(a) == 0, tags, va, vt)
 					default:
-						run1(op+"/int64", triv, tags, intsVal(a), intsVal(b))
+						run1(op+ty, triv, tags, va, vb)
 					}
 				}
 			case k < 8: // max / min
@@ -609,15 +796,41 @@ func init() {
 						}
 					}
 					ft := []string{Tag("maxmin-float:len=%d", min(len(fl), 5))}
-					if g.Chance(0.5) {
-						run1("Max/float64", false, ft, fltsVal(fl))
-					} else {
-						run1("Min/float64", false, ft, fltsVal(fl))
+					fty := "/float64"
+					if g.Intn(4) == 0 {
+						fty = "/float32"
+						for j := range fl {
+							fl[j] = float64(float32(fl[j])) // exactly representable (5e-324 becomes 0, MaxFloat64 becomes +Inf: replaced)
+							if math.IsInf(fl[j], 0) {
+								fl[j] = math.Copysign(math.MaxFloat32, fl[j])
+							}
+						}
 					}
-				} else if g.Chance(0.5) {
-					run1("Max/int64", false, tags, intsVal(l))
+					if g.Chance(0.5) {
+						run1("Max"+fty, false, ft, fltsVal(fl))
+					} else {
+						run1("Min"+fty, false, ft, fltsVal(fl))
+					}
 				} else {
-					run1("Min/int64", false, tags, intsVal(l))
+					ty := "/int64"
+					switch g.Intn(6) {
+					case 0:
+						ty = "/int"
+					case 1:
+						ty = "/int32"
+						for j, x := range l {
+							if x > math.MaxInt32 {
+								l[j] = math.MaxInt32 - x&1
+							} else if x < math.MinInt32 {
+								l[j] = math.MinInt32 + x&1
+							}
+						}
+					}
+					if g.Chance(0.5) {
+						run1("Max"+ty, false, tags, intsVal(l))
+					} else {
+						run1("Min"+ty, false, tags, intsVal(l))
+					}
 				}
 			case k < 11: // arithmetic shift
 				i, s, tags := shiftPair(g)
@@ -629,19 +842,37 @@ func init() {
 				if ka != "small-int" && ka != "axis" {
 					f = moderate(g)
 				}
-				if g.Intn(10) == 0 {
+				switch g.Intn(12) {
+				case 0:
 					b = a.Scale(float64(g.Pick(1, -1, 2)))
 					kb = "parallel"
+				case 1:
+					if !isZero(a) {
+						th, _ := smallAngle(g)
+						b = turned(g, a, float64(g.Pick(1, -1)), th)
+						kb = "near-parallel"
+					}
+				case 2:
+					a, b = mixed(g, a), mixed(g, b)
+					ka, kb = "mixed-magnitude", "mixed-magnitude"
 				}
-				run1("VecOps", false, []string{"vec:" + ka + "," + kb}, vecVal(a), vecVal(b), w.F(f))
+				sa, st := pow2(g)
+				sb, _ := pow2(g)
+				sf, _ := pow2(g)
+				run1("VecOps", false, []string{"vec:" + ka + "," + kb + st}, vecVal(fitV(a.Scale(sa))), vecVal(fitV(b.Scale(sb))), w.F(fit(f*sf)))
 			case k < 15: // lines
 				p, kp := genVec(g)
 				q, kq := genVec(g)
 				t := smallInt(g)
 				if kp != "small-int" || kq != "small-int" || g.Chance(0.3) {
-					t = g.PickF(0, 1, 0.5, 0.25, -1, 2, g.R.Float64(), moderate(g))
+					t = g.PickF(0, 1, 0.5, 0.25, -1, 2, g.R.Float64(), g.R.Float64(), moderate(g), moderate(g))
 				}
-				run1("LineOps", false, []string{"line:" + kp + "," + kq}, vecVal(p), vecVal(q), w.F(t))
+				sp, st := pow2(g)
+				sq := sp
+				if g.Intn(3) == 0 {
+					sq, _ = pow2(g)
+				}
+				run1("LineOps", false, []string{"line:" + kp + "," + kq + st}, vecVal(fitV(p.Scale(sp))), vecVal(fitV(q.Scale(sq))), w.F(fit(t)))
 			case k < 17: // matrices
 				small := g.Chance(0.6)
 				A, B, C := genMat(g, small), genMat(g, small), genMat(g, small)
@@ -659,6 +890,23 @@ func init() {
 					B = spatial.NewUnitMatrix3()
 					kind += ",unit"
 				}
+				if !small && g.Intn(3) == 0 { // entries across the moderate range
+					kind += ",scaled"
+					for _, mm := range []*spatial.Matrix3{&A, &B, &C} {
+						sc, _ := pow2(g)
+						for i := 0; i < 3; i++ {
+							for j := 0; j < 3; j++ {
+								e := 0
+								if g.Intn(4) == 0 {
+									e = g.Intn(41) - 20
+								}
+								mm[i][j] = fit(math.Ldexp(mm[i][j]*sc, e))
+							}
+						}
+					}
+					sc, _ := pow2(g)
+					v = fitV(v.Scale(sc))
+				}
 				run1("MatOps", false, []string{"mat:" + kind}, matVal(A), matVal(B), matVal(C), vecVal(v))
 				if g.Intn(4) == 0 { // constructor: nine distinct values in random order
 					perm := g.R.Perm(9)
@@ -675,12 +923,58 @@ func init() {
 			case k < 19: // rotation
 				if g.Intn(6) == 0 {
 					ax, ka := genVec(g)
-					ang := g.PickF(math.Pi, 0, math.Pi/2, -math.Pi, 1, moderate(g))
-					run1("QuatFromAxisAngle", isZero(ax), []string{"axis-angle:" + ka}, vecVal(ax), w.F(ang))
+					for isZero(ax) {
+						ax, ka = genVec(g)
+					}
+					sc, st := pow2(g)
+					if g.Intn(6) == 0 {
+						ax = mixed(g, ax)
+						ka = "mixed-magnitude"
+					}
+					ang := g.PickF(math.Pi, 0, math.Pi/2, -math.Pi, 1, 2*math.Pi, -math.Pi/2, 1e-9, 100, moderate(g), moderate(g), g.R.Float64()*2*math.Pi)
+					run1("QuatFromAxisAngle", false, []string{"axis-angle:" + ka + st}, vecVal(fitV(ax.Scale(sc))), w.F(fit(ang)))
 				} else {
 					a, b, kind := rotPair(g)
-					run1("RotateBetweenVector", kind == "zero", []string{"rot:" + kind}, vecVal(a), vecVal(b))
+					run1("RotateBetweenVector", false, []string{"rot:" + kind}, vecVal(a), vecVal(b))
 				}
+			case k >= 20: // AlmostEqual and the degree/radian conversions, with their own arguments
+				wideF := func() float64 {
+					switch g.Intn(6) {
+					case 0:
+						return g.PickF(0, math.Copysign(0, -1), 1, -1, 1e-300, -1e-300, 1e300, -1e300, 0.1, 1e-9)
+					case 1:
+						return math.Ldexp(g.R.Float64()*2-1, g.Intn(1801)-900)
+					case 2:
+						return float64(g.Int63n(2001) - 1000)
+					}
+					return moderate(g)
+				}
+				x := wideF()
+				y := wideF()
+				tol := g.PickF(0, 1e-9, 0.5, 1, 1e-3, -1, 10, math.Abs(wideF()))
+				switch g.Intn(6) {
+				case 0:
+					y = x
+				case 1, 2: // the tolerance is exactly, or one ulp off, the rounded difference
+					y = x + moderate(g)*g.PickF(1, 1e-6, 1e-12)
+					tol = Ulp(math.Abs(x-y), g.Intn(5)-2)
+				case 3:
+					y = x + tol*g.PickF(1, -1, 0.5, 2, 0.999999, 1.000001)
+				}
+				ang := g.PickF(0, 90, -90, 180, -180, 360, 45, 1e-300, 1e300, -1e300, 57.29577951308232, math.Pi, wideF(), wideF(), moderate(g), g.R.Float64()*720-360)
+				wf := func(x float64) float64 { // zero or 2^-999 <= |x| <= 2^999, no NaN/Inf
+					if x == 0 || math.IsNaN(x) {
+						return 0
+					}
+					if math.Abs(x) < 0x1p-999 {
+						return math.Copysign(0x1p-999, x)
+					}
+					if math.Abs(x) > 0x1p999 {
+						return math.Copysign(0x1p999, x)
+					}
+					return x
+				}
+				run1("ScalarOps", false, []string{"scalar"}, w.F(wf(x)), w.F(wf(y)), w.F(wf(tol)), w.F(wf(ang)))
 			default: // points
 				np := listLen(g)
 				if np > 8 {
@@ -704,7 +998,7 @@ func init() {
 				v := vecOf(g, f)
 				p := vecOf(g, f)
 				q := vecOf(g, f)
-				eps := g.PickF(0, 1e-9, 0.5, 1, 2, 1e-3, -1, 10)
+				eps := g.PickF(0, 1e-9, 0.5, 1, 2, 1e-3, -1, 10, math.Abs(moderate(g)), math.Abs(moderate(g))*1e-6)
 				switch g.Intn(4) {
 				case 0:
 					q = p
